@@ -469,6 +469,9 @@ class Campaign:
                 if not la.get("sinv", True) or not la.get("patch_ok", True):
                     ctx.mismatch("premise of no_symbol_is_left_on_a_block_that_left_the_module does not hold on a recorded state: sinv=%s patch_ok=%s"
                                  % (la.get("sinv"), la.get("patch_ok")), case)
+                if not la.get("expr_ok", True) or not la.get("patch_expr_ok", True):
+                    ctx.mismatch("premise of expression_symbols_are_part_of_the_module does not hold on a recorded state: expr_ok=%s patch_expr_ok=%s"
+                                 % (la.get("expr_ok"), la.get("patch_expr_ok")), case)
                 ctx.count("premise:sinv+patch_ok")
                 if not la["ids_below"] or not la["new_blocks"]:
                     ctx.mismatch("premise of loop_is_listing does not hold on a recorded state: ids_below=%s new_blocks=%s"
